@@ -143,6 +143,18 @@ def run(repo: Repo, rep: Report, tier: str) -> None:
     if ok:
         ok = not any(cfg.reaches_avoiding(cs[0], {id(a_)}, lambda n: n is loop, start_inclusive=False) for a_ in apps)
     rep.check(ok, "C02-R3", "a constant member is listed once (constant part only)", "`continue` after the constant store" if ok else "a constant member also reaches the computed list: it is emitted twice and summed on the wire", bl.loc(cs[0]) if cs else bl.loc())
+    # every member whose signal is announced in the bundle's type set is also delivered: from the `all_signal_types.add(...)` of a scalar member no path
+    # reaches the next element without storing the constant or appending the lowered element
+    adds = [s for s in cfg.stmts() if isinstance(s, ast.Expr) and isinstance(s.value, ast.Call) and call_name(s.value) == "add"
+            and isinstance(s.value.func, ast.Attribute) and norm(s.value.func.value) == "all_signal_types"]
+    if not adds:
+        raise AnalysisError("C02-R3: the member-type recording (`all_signal_types.add`) was not found in lower_bundle_literal")
+    contrib = {id(x) for x in cs + apps}
+    for a3 in adds:
+        lost = cfg.reaches_avoiding(a3, {id(loop)}, lambda n: id(n) in contrib, start_inclusive=False)
+        rep.check(not lost, "C02-R3", "a scalar member announced in the bundle's signal set is delivered on every path (constant part or computed part)",
+                  f"{len(cs)} constant store(s), {len(apps)} computed append(s) cover every path to the next element" if not lost else
+                  "a path from the type recording to the next element skips both the constant store and the lowering: `{(\"signal-A\", x + 1), y}` loses its first member", bl.loc(a3))
     from .shared import bundle_literal_sibling_branches
     bundle_literal_sibling_branches(repo, rep, "C02-R3")
 
@@ -184,3 +196,8 @@ def run(repo: Repo, rep: Report, tier: str) -> None:
                 and "compare_value=self.lower_expr(expr.condition.right)" in alt
             rep.check(ok5, "C02-R5", "a bundle filter is lowered to bundle_decider(op, bundle, compare value) of the program's condition",
                       alt[:110] if ok5 else f"returns `{alt[:90]}`: the filter (and its output spec) is skipped on this path", bf.loc(r5))
+
+    # ---------------- R6 ---------------------------------------------------------------
+    from .shared import borrow as _borrow2
+    _borrow2(repo, rep, "C13", "C13-R3", "C02-R6", "a member read from a bundle (`b[\"t\"]`) keeps the name t whatever signal the bundle's own producer was resolved to: the name resolver "
+             "passes explicit names through on the strength of the name alone", floor=2)
